@@ -277,9 +277,10 @@ def cli_scenarios(R, g, n):
             R.case(("cli_blank", term, rep), nontrivial=True)
             succeeded += rca == 0
             ctx = {"tree": cli.tree_json(tree), "pattern": term, "replacement": rep}
-            if rca == 0 and rcb == 0 and sb_.snapshot() != ta:
-                fails.append({"scenario": "applying the saved plan file differs from applying directly", **ctx,
-                              "diff": repr(cli.diff_snap(ta, sb_.snapshot()))[:1000]})
+            if rca == 0 and (rcb != 0 or sb_.snapshot() != ta):
+                fails.append({"scenario": "applying the saved plan file " + ("is refused although the direct apply succeeds" if rcb != 0 else
+                                                                            "differs from applying directly"), **ctx, "rc": [rca, rcb1, rcb],
+                              "stderr": eb.decode("utf-8", "replace")[-300:], "diff": repr(cli.diff_snap(ta, sb_.snapshot()))[:1000]})
             elif rca == 0 and (rcu != 0 or rcr != 0 or sc.snapshot() != ta):
                 fails.append({"scenario": "undo + redo (stored plan copy) does not reproduce the direct apply", **ctx, "rc": [rcc, rcu, rcr],
                               "stderr": (eu + er).decode("utf-8", "replace")[-400:], "diff": repr(cli.diff_snap(ta, sc.snapshot()))[:1000]})
